@@ -66,6 +66,9 @@ def _get_const_repr(const_node):
     if not attr.HasField("t"):
         return None
     tensor_proto = attr.t
+    if 0 in tensor_proto.dims:
+        # An empty tensor would be printed as "[]", which has no element type.
+        return None
     if tensor_proto.data_type in {TensorProto.FLOAT, TensorProto.INT64}:
         rank = len(tensor_proto.dims)
         if rank == 0:
